@@ -34,7 +34,7 @@ def plan(tier):
 
 
 def required_regimes(tier):
-    return c03.required_regimes(tier) | {'odd_extended_output'}
+    return (c03.required_regimes(tier) - {'variant:N=1', 'variant:C=2'}) | {'odd_extended_output'}
 
 
 def run(item):
